@@ -88,3 +88,30 @@ fn c17_tweener_set_starts_from_current_value() {
 	kani::cover!(cur != to, "w:moves");
 	std::mem::forget(t);
 }
+
+// @h prop=C07,C17 tier=quick kind=main timeout=600
+// @bounds real Tweener with its command channel: zero, one or two `set` commands (symbolic targets) written before a callback; on_start_processing twice
+// @funcs Tweener::on_start_processing, Tweener::set, CommandReader::read
+// @catches a set command lost, applied twice (the tween restarted by the next callback), or the first of a burst winning
+#[kani::proof]
+#[kani::unwind(3)]
+fn c07_tweener_set_command_applied_exactly_once() {
+	let (mut w, r) = command_writers_and_readers();
+	let mut t = Tweener { state: State::Idle, value: 1.0, command_readers: r, shared: Arc::new(TweenerShared::new()) };
+	let n: u8 = kani::any();
+	kani::assume(n <= 2);
+	let (a, b): (f64, f64) = (kani::any(), kani::any());
+	kani::assume(!a.is_nan() && !b.is_nan());
+	if n >= 1 { w.set.write((a, Tween::default())); }
+	if n >= 2 { w.set.write((b, Tween::default())); }
+	t.on_start_processing();
+	let last = if n == 2 { b } else { a };
+	match &mut t.state {
+		State::Idle => assert!(n == 0, "a command issued before the callback is not lost"),
+		State::Tweening { values, time, .. } => { assert!(n >= 1 && values.1 == last && values.0 == 1.0, "only the last command of a burst is applied"); *time = 0.005; }
+	}
+	t.on_start_processing();
+	match &t.state { State::Tweening { time, .. } => assert!(*time == 0.005, "a second drain does not re-apply (restart) it"), State::Idle => assert!(n == 0) }
+	kani::cover!(n == 2 && a != b, "w:burst");
+	std::mem::forget(t); std::mem::forget(w);
+}
